@@ -149,6 +149,8 @@ pub fn run(ctx: &mut Ctx) -> Step {
         *ctx.tape.pick(&[20u32, 60, 150, 400])
     };
     let mut last: [Option<Mv>; 2] = [None, None];
+    // the last move each replica proposed through evaluate (submitted later as a stale offer)
+    let mut proposal: Option<Mv> = None;
     let mut trace: Vec<String> = Vec::new();
     for _ in 0..calls {
         ctx.tape.mark();
@@ -205,6 +207,20 @@ pub fn run(ctx: &mut Ctx) -> Step {
                         return ctx.fail(Prop::C15, "plugin.proposed-illegal", String::new(), format!("replica {} proposed {} which is illegal in {}", bot.name, m.text(), bot.model.fen()));
                     }
                     trace.push(format!("eval:{}", m.text()));
+                    proposal = Some(m);
+                    if ctx.tape.choose(6) == 5 {
+                        // F-BYZ: the driver does not play the proposal now; a new board is set and
+                        // the stale proposal is submitted there
+                        let gsel = *ctx.tape.pick(&[0u32, 8, 7, 2]);
+                        let p = gen::generate(&mut ctx.tape, gsel);
+                        set_board(ctx, &mut a, &p)?;
+                        set_board(ctx, &mut b, &p)?;
+                        ctx.stats.bump("fault.byz.stale-proposal-after-set_board");
+                        trace.push(format!("set_board({}) stale:{}", p.fen(), m.text()));
+                        submit(ctx, &mut a, &mut variants, m, "stale-proposal")?;
+                        submit(ctx, &mut b, &mut variants, m, "stale-proposal")?;
+                        continue;
+                    }
                     let fa = submit(ctx, &mut a, &mut variants, m, "none")?.1;
                     let fb = submit(ctx, &mut b, &mut variants, m, "none")?.1;
                     if in_sync && fa != fb {
@@ -214,8 +230,9 @@ pub fn run(ctx: &mut Ctx) -> Step {
             }
             10 | 11 => {
                 // F-BYZ: an illegal submission (uniform, stale duplicate, opponent's move, wrong promotion field)
-                let m = match ctx.tape.choose(4) {
-                    0 => Mv::new(ctx.tape.choose(64) as u8, ctx.tape.choose(64) as u8, *ctx.tape.pick(&[0u8, 0, m1::Q, m1::N])),
+                let m = match ctx.tape.choose(5) {
+                    4 if proposal.is_some() => proposal.unwrap(),
+                    0 | 4 => Mv::new(ctx.tape.choose(64) as u8, ctx.tape.choose(64) as u8, *ctx.tape.pick(&[0u8, 0, m1::Q, m1::N])),
                     1 => last[(a.model.stm ^ 1) as usize].unwrap_or(Mv::new(0, 0, 0)), // duplicate of the move just played
                     2 => {
                         let mut q = a.model.clone();
